@@ -1,5 +1,6 @@
 from __future__ import print_function
 
+import re
 import sys
 from bisect import insort
 from ast import iter_fields, Store, Load, NodeVisitor, parse, Tuple, List, AST
@@ -344,6 +345,18 @@ def marked(name):
     return SOURCE_MARK in name
 
 
+LINE_BREAK = re.compile(r'\r\n|\r|\n')
+
+
+def split_lines(source):
+    # type: (str) -> list[str]
+    """Lines as the parser counts them: str.splitlines() also breaks at form feeds and other separators"""
+    lines = LINE_BREAK.split(source)
+    if len(lines) > 1 and not lines[-1]:
+        lines.pop()
+    return lines
+
+
 class Source(object):
     def __init__(self, source, filename=None, position=None):
         # type: (str, str | None, tuple[int, int] | None) -> None
@@ -351,7 +364,7 @@ class Source(object):
         self.filename = filename or '<string>'
         if position:
             ln, col = position
-            lines = source.splitlines() or ['']
+            lines = split_lines(source) or ['']
             if ln > len(lines):
                 lines.append('')
             line = lines[ln-1]
@@ -373,7 +386,7 @@ class Source(object):
     @cached_property
     def lines(self):
         # type: () -> list[str]
-        return self.source.splitlines() or ['']
+        return split_lines(self.source) or ['']
 
 
 def dump_flows(scope, fd=None):
